@@ -369,7 +369,7 @@ def r6_resolve_cfg(text, fired):
     # other attributes inside bodies (#[allow(...)], #[inline], ...) are deleted
     while True:
         msk = mask(text)
-        m = re.search(r'#\[(allow|inline|warn|deny|rustfmt::skip|cold|must_use)\b', msk)
+        m = re.search(r'#\[(allow|inline|warn|deny|rustfmt::skip|cold|must_use|default|derive|repr|doc)\b', msk)
         if not m:
             break
         ob = msk.index('[', m.start())
